@@ -1,4 +1,4 @@
-import EventppVerif.CL.Inv
+import EventppVerif.CL.OpAux
 /-
   Per-operation lemmas: every Model operation on a list object that represents a Spec list
   yields an object representing the result of the Spec operation, and keeps every running
@@ -7,83 +7,211 @@ import EventppVerif.CL.Inv
 namespace Evp
 
 theorem Rep.empty (b : Nat) : Rep {} [] b := by
-  sorry
+  refine ⟨WF.empty.mono (Nat.zero_le b), by simp, fun n _ => ?_⟩
+  show ((({} : CL).heap) n).counter = 0
+  simp
+  rfl
 
-theorem Rep.mono {l SL b b'} (r : Rep l SL b) (h : b ≤ b') : Rep l SL b' := by
-  sorry
+theorem Rep.mono {l SL b b'} (r : Rep l SL b) (h : b ≤ b') : Rep l SL b' :=
+  ⟨r.wf.mono h, r.cbs, fun n hn => r.fresh n (Nat.le_trans h hn)⟩
 
 theorem FrameOK.mono {l SL b b' m cap rest} (f : FrameOK l SL b m cap rest) (h : b ≤ b') :
     FrameOK l SL b' m cap rest := by
-  sorry
+  obtain ⟨R, S, h1, h2, h3, h4, h5, h6, h7, h8⟩ := f
+  exact ⟨R, S, h1, fun r hr => ⟨(h2 r hr).1, Nat.lt_of_lt_of_le (h2 r hr).2 h⟩, h3, h4, h5, h6, h7,
+    fun e he => Nat.lt_of_lt_of_le (h8 e he) h⟩
 
 /-! ### results of the querying operations -/
 
 theorem rep_isEmpty {l SL b} (r : Rep l SL b) : l.isEmpty = SL.isEmpty := by
-  sorry
+  unfold CL.isEmpty
+  rw [r.wf.head_eq]
+  cases SL <;> simp
 
 theorem rep_owns {l SL b} (r : Rep l SL b) (h : Hd) : l.owns (b + 1) h = SL.present h := by
-  sorry
+  unfold CL.owns
+  by_cases hl : (l.heap h).counter ≠ 0
+  · have hm : h ∈ SL.ids := (r.wf.live h).mpr hl
+    have hp : SL.present h = true := SList.present_iff.mpr hm
+    rw [if_pos hl, hp]
+    obtain ⟨P, Q, hPQ⟩ := List.append_of_mem hm
+    have w := r.wf
+    rw [hPQ] at w
+    obtain ⟨s1, s2, s3, s4, s5, s6⟩ := w.split
+    have hlen := w.length_le
+    have hseg : Seg prevF l.heap (some h) (h :: P.reverse) none := ⟨rfl, by rw [← s5] at s6; exact s6⟩
+    have hhead := w.head_eq
+    cases P with
+    | nil =>
+      have := walkPrev_seg (xs := []) (fuel := b + 1) hseg (by simp)
+      rw [this, hhead]; simp
+    | cons z P' =>
+      have hseg' : Seg prevF l.heap (some h) ((h :: P'.reverse) ++ [z]) none := by simpa using hseg
+      have := walkPrev_seg (fuel := b + 1) hseg' (by simp at hlen ⊢; omega)
+      rw [this, hhead]; simp
+  · have hm : h ∉ SL.ids := fun hm => hl ((r.wf.live h).mp hm)
+    have hp : SL.present h = false := SList.present_false_iff.mpr hm
+    rw [if_neg hl, hp]
 
 /-- the model's test `counter ≠ 0` is the Spec's `present` -/
 theorem rep_present {l SL b} (r : Rep l SL b) (h : Hd) : decide ((l.heap h).counter ≠ 0) = SL.present h := by
-  sorry
+  rw [Bool.eq_iff_iff, SList.present_iff, r.wf.live h]
+  simp
 
 /-! ### structural operations: `Rep` is preserved always (also across a counter wrap) -/
 
 theorem rep_append {l SL b} (r : Rep l SL b) (cb : Cb) :
     Rep (l.append (b + 1) b cb) (SL.append b cb) (b + 1) := by
-  sorry
+  obtain ⟨r1, h1, h2⟩ := rep_nextCounter r
+  rw [append_eq]
+  exact rep_linkBack r1 h1 h2
 
 theorem rep_prepend {l SL b} (r : Rep l SL b) (cb : Cb) :
     Rep (l.prepend (b + 1) b cb) (SL.prepend b cb) (b + 1) := by
-  sorry
+  obtain ⟨r1, h1, h2⟩ := rep_nextCounter r
+  rw [prepend_eq]
+  exact rep_linkFront r1 h1 h2
 
 theorem rep_insert {l SL b} (r : Rep l SL b) (cb : Cb) (before : Hd) :
     Rep (l.insert (b + 1) b cb before) (SL.insert b cb before) (b + 1) := by
-  sorry
+  obtain ⟨r1, h1, h2⟩ := rep_nextCounter r
+  rw [insert_eq]
+  have hp := rep_present r1 before
+  by_cases hl : ((l.nextCounter (b + 1)).1.heap before).counter ≠ 0
+  · rw [if_pos hl]
+    have : SL.present before = true := by rw [← hp]; simpa using hl
+    exact rep_linkBefore r1 h1 h2 this
+  · rw [if_neg hl]
+    have : SL.present before = false := by rw [← hp]; simpa using hl
+    have hins : SL.insert b cb before = SL.append b cb := by simp [SList.insert, this]
+    rw [hins]
+    exact rep_linkBack r1 h1 h2
 
 theorem rep_remove {l SL b} (r : Rep l SL b) (h : Hd) :
     Rep (l.remove h).1 (SL.remove h).1 b ∧ (l.remove h).2 = (SL.remove h).2 := by
-  sorry
+  unfold CL.remove SList.remove
+  have hp := rep_present r h
+  by_cases hl : (l.heap h).counter ≠ 0
+  · have : SL.present h = true := by rw [← hp]; simpa using hl
+    rw [if_pos hl, if_pos this]
+    exact ⟨rep_freeNode r this, rfl⟩
+  · have : SL.present h = false := by rw [← hp]; simpa using hl
+    rw [if_neg hl, this]
+    exact ⟨r, rfl⟩
 
 /-- copy construction / `cloneFrom` -/
 theorem rep_clone {l SL b} (r : Rep l SL b) :
     Rep (l.clone (b + 1) b) (SL.cloneWith b) (b + SL.length) ∧
     (chainOf l.heap (b + 1) l.head).length = SL.length := by
-  sorry
+  have hch : chainOf l.heap (b + 1) l.head = SL.ids :=
+    chainOf_seg r.wf.fwd (Nat.lt_succ_of_le r.wf.length_le)
+  have hcbs : (chainOf l.heap (b + 1) l.head).map (fun n => (l.heap n).cb) = SL.map (·.cb) := by
+    rw [hch]
+    simp only [SList.ids, List.map_map]
+    apply List.map_congr_left
+    intro e he
+    exact r.cbs e he
+  refine ⟨?_, by rw [hch]; simp [SList.ids]⟩
+  have r0 : Rep { cur := 1, M := l.M } [] b := by
+    refine ⟨⟨by simp, by simp [Seg], by simp [Seg], ?_, by simp, by simp, ?_, r.wf.m_ge, rfl⟩,
+      by simp, fun n _ => ?_⟩
+    · intro n
+      show n ∈ [] ↔ ((({} : Heap)) n).counter ≠ 0
+      simp; rfl
+    · have := r.wf.m_ge
+      show 1 < l.M
+      omega
+    · show ((({} : Heap)) n).counter = 0
+      simp; rfl
+  have := cloneChain_rep SL _ _ _ r0 (Nat.le_refl 1)
+  rw [clone_eq, hcbs]
+  simp only [List.nil_append, if_true] at this
+  refine cast (congrArg (fun x => Rep x _ _) ?_) this
+  apply CL.ext' <;> try rfl
+  show (if SL = [] then none else some b) = (if (SL.map (·.cb)).isEmpty then none else some b)
+  cases SL <;> simp
 
 /-- the moved-from object of a move assignment -/
 theorem rep_moved_from {l SL b} (r : Rep l SL b) : Rep { cur := l.cur, M := l.M } [] b := by
-  sorry
+  refine ⟨⟨by simp, by simp [Seg], by simp [Seg], ?_, by simp, by simp, r.wf.cur_lt, r.wf.m_ge, rfl⟩,
+    by simp, fun n _ => ?_⟩
+  · intro n
+    show n ∈ [] ↔ ((({} : Heap)) n).counter ≠ 0
+    simp; rfl
+  · show ((({} : Heap)) n).counter = 0
+    simp; rfl
 
 theorem rep_setCounter {l SL b} (r : Rep l SL b) (k : Nat) :
     Rep { l with cur := if 0 < k ∧ k ≤ l.M then max l.cur (l.M - k) else l.cur } SL b := by
-  sorry
+  have w := r.wf
+  refine ⟨⟨w.nodup, w.fwd, w.bwd, w.live, ?_, w.lt, ?_, w.m_ge, w.ub⟩, r.cbs, r.fresh⟩
+  · intro n hn
+    have := w.cnt n hn
+    show (l.heap n).counter ≤ (if 0 < k ∧ k ≤ l.M then max l.cur (l.M - k) else l.cur)
+    split <;> omega
+  · have := w.cur_lt
+    show (if 0 < k ∧ k ≤ l.M then max l.cur (l.M - k) else l.cur) < l.M
+    split <;> omega
 
 /-! ### running traversals stay in correspondence (no counter wrap in the operation) -/
+
+/-- without a wrap `getNextCounter` only increments `cur` -/
+theorem rep_nowrap {l SL b} (r : Rep l SL b) (nw : l.willWrap = false) :
+    Rep { l with cur := l.cur + 1 } SL b := by
+  have := (rep_nextCounter r).1
+  rw [nextCounter_nowrap nw] at this
+  exact this
 
 theorem frame_append {l SL b m cap rest} (r : Rep l SL b) (f : FrameOK l SL b m cap rest)
     (nw : l.willWrap = false) (cb : Cb) :
     FrameOK (l.append (b + 1) b cb) (SL.append b cb) (b + 1) m cap rest := by
-  sorry
+  have hcap : cap ≤ l.cur := by obtain ⟨_, _, _, _, _, _, h5, _⟩ := f; exact h5
+  rw [append_eq, nextCounter_nowrap nw]
+  exact frame_linkBack (rep_nowrap r nw) (f.cur_mono _ (Nat.le_succ _)) (Nat.lt_succ_of_le hcap)
 
 theorem frame_prepend {l SL b m cap rest} (r : Rep l SL b) (f : FrameOK l SL b m cap rest)
     (nw : l.willWrap = false) (cb : Cb) :
     FrameOK (l.prepend (b + 1) b cb) (SL.prepend b cb) (b + 1) m cap rest := by
-  sorry
+  rw [prepend_eq, nextCounter_nowrap nw]
+  exact frame_linkFront (rep_nowrap r nw) (f.cur_mono _ (Nat.le_succ _))
 
 theorem frame_insert {l SL b m cap rest} (r : Rep l SL b) (f : FrameOK l SL b m cap rest)
     (nw : l.willWrap = false) (cb : Cb) (before : Hd) :
     FrameOK (l.insert (b + 1) b cb before) (SL.insert b cb before) (b + 1) m cap rest := by
-  sorry
+  have hcap : cap ≤ l.cur := by obtain ⟨_, _, _, _, _, _, h5, _⟩ := f; exact h5
+  have r1 := rep_nowrap r nw
+  have f1 := f.cur_mono (l.cur + 1) (Nat.le_succ _)
+  have hp := rep_present r before
+  rw [insert_eq, nextCounter_nowrap nw]
+  by_cases hl : (l.heap before).counter ≠ 0
+  · have hl' : (({ l with cur := l.cur + 1 } : CL).heap before).counter ≠ 0 := hl
+    rw [if_pos hl']
+    have : SL.present before = true := by rw [← hp]; simpa using hl
+    exact frame_linkBefore r1 f1 (Nat.lt_succ_of_le hcap) this
+  · have hl' : ¬ (({ l with cur := l.cur + 1 } : CL).heap before).counter ≠ 0 := hl
+    rw [if_neg hl']
+    have : SL.present before = false := by rw [← hp]; simpa using hl
+    have hins : SL.insert b cb before = SL.append b cb := by simp [SList.insert, this]
+    rw [hins]
+    exact frame_linkBack r1 f1 (Nat.lt_succ_of_le hcap)
 
 theorem frame_remove {l SL b m cap rest} (r : Rep l SL b) (f : FrameOK l SL b m cap rest) (h : Hd) :
     FrameOK (l.remove h).1 (SL.remove h).1 b m cap rest := by
-  sorry
+  unfold CL.remove SList.remove
+  have hp := rep_present r h
+  by_cases hl : (l.heap h).counter ≠ 0
+  · have : SL.present h = true := by rw [← hp]; simpa using hl
+    rw [if_pos hl, if_pos this]
+    exact frame_freeNode r f this
+  · have : SL.present h = false := by rw [← hp]; simpa using hl
+    rw [if_neg hl, this]
+    exact f
 
 theorem frame_setCounter {l SL b m cap rest} (r : Rep l SL b) (f : FrameOK l SL b m cap rest) (k : Nat) :
     FrameOK { l with cur := if 0 < k ∧ k ≤ l.M then max l.cur (l.M - k) else l.cur } SL b m cap rest := by
-  sorry
+  have _ := r
+  apply f.cur_mono
+  split <;> omega
 
 /-- start of a traversal: read `head`, capture `cur`, skip to the first callable node -/
 theorem frame_start {l SL b} (r : Rep l SL b) :
@@ -91,7 +219,45 @@ theorem frame_start {l SL b} (r : Rep l SL b) :
     | [] => seek l.heap l.cur (b + 1) l.head = none
     | e :: es => seek l.heap l.cur (b + 1) l.head = some e.id ∧ (l.heap e.id).cb = e.cb ∧
         FrameOK l SL b e.id l.cur es := by
-  sorry
+  have hall : ∀ e ∈ SL, SL.present e.id = true := fun e he =>
+    SList.present_iff.mpr (SList.mem_ids_of_mem he)
+  have hdw : SL.dropWhile (fun e => !SL.present e.id) = SL := by
+    cases hSL : SL with
+    | nil => rfl
+    | cons e es =>
+      rw [← hSL, hSL, List.dropWhile_cons]
+      have := hall e (by rw [hSL]; simp)
+      rw [hSL] at this
+      simp [this]
+  rw [hdw]
+  cases SL with
+  | nil =>
+    have : l.head = none := by simpa using r.wf.head_eq
+    simp [this, seek]
+  | cons e es =>
+    simp only
+    have w := r.wf
+    have hlen := w.length_le
+    have hlive : (l.heap e.id).counter ≠ 0 := (w.live e.id).mp (by simp)
+    have hcnt : (l.heap e.id).counter ≤ l.cur := w.cnt e.id (by simp)
+    have hs := seek_seg (cap := l.cur) w.fwd (Nat.lt_succ_of_le hlen)
+    have hg : guard (l.heap e.id).counter l.cur = true := by
+      rw [guard_live hlive]; simpa using hcnt
+    refine ⟨?_, r.cbs e (by simp), ?_⟩
+    · rw [hs]; simp [hg]
+    · refine ⟨[], SList.ids (e :: es), List.suffix_refl _, by simp, by simp, rfl, Nat.le_refl _, ?_, ?_, ?_⟩
+      · simp only [if_true]
+        have e1 : (es.filter (fun x => SList.present (e :: es) x.id)) = es := by
+          rw [List.filter_eq_self]; intro x hx; exact hall x (by simp [hx])
+        have e2 : (SList.ids (e :: es)).tail = es.map (·.id) := rfl
+        rw [e1, e2, List.filter_eq_self]
+        intro a ha
+        have : a ∈ SList.ids (e :: es) := List.mem_cons_of_mem _ ha
+        simpa using w.cnt a this
+      · intro x hx _
+        exact List.mem_cons_of_mem _ hx
+      · intro x hx
+        exact w.lt _ (SList.mem_ids_of_mem (List.mem_cons_of_mem _ hx))
 
 /-- one step of a traversal: read `m.next`, skip to the next callable node -/
 theorem frame_step {l SL b m cap rest} (r : Rep l SL b) (f : FrameOK l SL b m cap rest) :
@@ -99,6 +265,27 @@ theorem frame_step {l SL b m cap rest} (r : Rep l SL b) (f : FrameOK l SL b m ca
     | [] => seek l.heap cap (b + 1) (l.heap m).next = none
     | e :: es => seek l.heap cap (b + 1) (l.heap m).next = some e.id ∧ (l.heap e.id).cb = e.cb ∧
         FrameOK l SL b e.id cap es := by
-  sorry
+  obtain ⟨R, S, h1, h2, h3, h4, h5, h6, h7, h8⟩ := f
+  have hseek := frame_seek r h1 h2 h3 h4 h6
+  cases hd : rest.dropWhile (fun e => !SL.present e.id) with
+  | nil =>
+    have := dropWhile_not_nil (p := fun e : Entry => SL.present e.id) hd
+    simp only
+    rw [hseek, this]; rfl
+  | cons e es =>
+    obtain ⟨d1, d2, d3, d4⟩ := dropWhile_not_cons (p := fun e : Entry => SL.present e.id) hd
+    simp only
+    rw [d2] at hseek h6
+    simp only [List.map_cons, List.head?_cons] at hseek h6
+    refine ⟨hseek, r.cbs e (h7 e d3 d1), ?_⟩
+    obtain ⟨l₁, l₂, hY, _, _, hl₂⟩ := List.filter_eq_cons_iff.mp h6
+    have hsufY : (if R = [] then S.tail else S) <:+ S := by
+      split
+      · exact List.tail_suffix S
+      · exact List.suffix_refl S
+    have hsuf : (e.id :: l₂) <:+ SL.ids :=
+      List.IsSuffix.trans (List.IsSuffix.trans ⟨l₁, hY.symm⟩ hsufY) h1
+    exact ⟨[], e.id :: l₂, hsuf, by simp, by simp, rfl, h5, by simpa using hl₂,
+      fun x hx => h7 x (d4 x hx), fun x hx => h8 x (d4 x hx)⟩
 
 end Evp
